@@ -135,12 +135,16 @@ void reference_check(Ledger &L, int iloop) {
           continue;
         const double lo = s.pos[k] - c.anchor[k];
         const double hi = c.anchor[k] + c.sides[k] - s.pos[k];
+        // move the start inside by a few hundred units in the last place of
+        // the position scale (far below the comparison tolerances)
+        const double nudge =
+            256. * 2.3e-16 * (std::fabs(c.anchor[k]) + c.sides[k]);
         if (std::fabs(lo) <= 1e-9 * L.lay.cell[k]) {
           start_tie = true;
-          nudged[k] = c.anchor[k] + 1e-9 * L.lay.cell[k];
+          nudged[k] = c.anchor[k] + nudge;
         } else if (std::fabs(hi) <= 1e-9 * L.lay.cell[k]) {
           start_tie = true;
-          nudged[k] = c.anchor[k] + c.sides[k] * (1. - 1e-9 / c.ncell[k]);
+          nudged[k] = c.anchor[k] + c.sides[k] - nudge;
         }
       }
       auto same_point = [&](const double *a, const CoordinateVector<> &b) {
